@@ -733,5 +733,10 @@ class SupportedSRS(object):
         return self.preferred_srs.preferred_src(target, self.supported_srs)
 
     def __eq__(self, other):
+        if not isinstance(other, SupportedSRS):
+            return NotImplemented
         # .prefered_srs is set global, so we only compare .supported_srs
-        return self.supported_srs == other.supported_srs
+        # compare the codes: EPSG:3857 and EPSG:900913 are equal as SRS, but a
+        # server that lists one of them does not need to know the other
+        return ([srs.srs_code for srs in self.supported_srs] ==
+                [srs.srs_code for srs in other.supported_srs])
